@@ -39,10 +39,14 @@ const (
 	simName   = "__simrt"
 )
 
-// package path suffix (below modPath + "/homescript") -> rule set
-var concurrentPkgs = map[string]bool{"": true, "/runtime": true}
+// package path suffix (below modPath + "/homescript") -> rule set.
+// T2/T3/T5 apply to every product package (a maintainer may add goroutines or locks anywhere);
+// T4 (step counting) only to the VM and interpreter packages, where the instruction loops are.
+type allPkgs struct{}
+
+func (allPkgs) has(string) bool { return true }
+
 var stepPkgs = map[string]bool{"/runtime": true, "/runtime/value": true, "/interpreter": true, "/interpreter/value": true}
-var wakePkgs = map[string]bool{"": true, "/runtime": true, "/interpreter": true}
 
 type report struct {
 	MapSites   []string       `json:"map_sites"`
@@ -151,7 +155,7 @@ func callStmt(name string, args ...ast.Expr) ast.Stmt {
 
 func (in *instr) run() bool {
 	// T2
-	if concurrentPkgs[in.suffix] {
+	if true {
 		for _, imp := range in.file.Imports {
 			if imp.Path.Value == `"sync"` {
 				imp.Path.Value = strconv.Quote(syncPath)
@@ -297,11 +301,40 @@ func (fi *funcInstr) isSleep(s ast.Stmt) (ast.Expr, bool) {
 	return nil, false
 }
 
+// isSyncWait: a statement `x.Wait()` where x is a sync.WaitGroup or *sync.Cond (blocks durably
+// under synctest; the woken goroutine has to park again before it touches anything).
+func (fi *funcInstr) isSyncWait(s ast.Stmt) bool {
+	es, ok := s.(*ast.ExprStmt)
+	if !ok {
+		return false
+	}
+	c, ok := es.X.(*ast.CallExpr)
+	if !ok || len(c.Args) != 0 {
+		return false
+	}
+	se, ok := c.Fun.(*ast.SelectorExpr)
+	if !ok || se.Sel.Name != "Wait" {
+		return false
+	}
+	t := fi.in.pkg.TypesInfo.TypeOf(se.X)
+	if t == nil {
+		return false
+	}
+	if p, ok := t.(*types.Pointer); ok {
+		t = p.Elem()
+	}
+	n, ok := t.(*types.Named)
+	if !ok || n.Obj().Pkg() == nil {
+		return false
+	}
+	return n.Obj().Pkg().Path() == "sync" && (n.Obj().Name() == "WaitGroup" || n.Obj().Name() == "Cond")
+}
+
 func (fi *funcInstr) stmts(list []ast.Stmt) []ast.Stmt {
 	in := fi.in
 	var out []ast.Stmt
 	for _, s := range list {
-		wake := wakePkgs[in.suffix]
+		wake := true
 		switch t := s.(type) {
 		case *ast.BlockStmt:
 			fi.block(t)
@@ -364,7 +397,7 @@ func (fi *funcInstr) stmts(list []ast.Stmt) []ast.Stmt {
 			continue
 		case *ast.GoStmt:
 			fi.exprs(t.Call)
-			if concurrentPkgs[in.suffix] {
+			if true {
 				out = append(out, fi.goStmt(t))
 				continue
 			}
@@ -385,6 +418,13 @@ func (fi *funcInstr) stmts(list []ast.Stmt) []ast.Stmt {
 					blk := callStmt("SleepFor", d)
 					in.sleepRewritten = true
 					out = append(out, blk)
+					in.rep.WakeSites++
+					in.needSim = true
+					in.count++
+					continue
+				}
+				if fi.isSyncWait(s) {
+					out = append(out, callStmt("Blocking"), s, callStmt("Woke"))
 					in.rep.WakeSites++
 					in.needSim = true
 					in.count++
@@ -412,7 +452,7 @@ func (fi *funcInstr) stmts(list []ast.Stmt) []ast.Stmt {
 func (fi *funcInstr) ifStmt(t *ast.IfStmt) {
 	fi.exprs(t.Init)
 	fi.exprs(t.Cond)
-	if wakePkgs[fi.in.suffix] && (t.Init != nil && hasRecv(t.Init) || hasRecv(t.Cond)) {
+	if true && (t.Init != nil && hasRecv(t.Init) || hasRecv(t.Cond)) {
 		fi.in.rep.Warnings = append(fi.in.rep.Warnings, fmt.Sprintf("%s:%s: channel receive in if header has no wake point", fi.in.relFile, fi.fname))
 	}
 	fi.block(t.Body)
